@@ -167,6 +167,28 @@ def twin_classifiers(res, classes):
             sp = attempt(lambda: PY_SS_FIELDS(cls))
             if (se[0], se[1] if se[0] == 0 else se[1:]) != (sp[0], sp[1] if sp[0] == 0 else sp[1:]):
                 res.fail('structseq_fields: engine and Python twin disagree', case, f'{se} vs {sp}')
+            # the instance forms: an instance is recognised exactly when its class is, a class is never an instance
+            for name, cls_ans in (('is_namedtuple_instance', e_nt), ('is_structseq_instance', e_ss)):
+                f = getattr(otyping, name)
+                if f(cls) != f.__python_implementation__(cls):
+                    res.fail(f'{name}: engine and Python twin disagree on a class object', case)
+                if f(cls) != (optree.is_namedtuple_class(type(cls)) if 'named' in name else optree.is_structseq_class(type(cls))):
+                    res.fail(f'{name} of a class object is not the classification of its metaclass', case)
+            inst0 = None
+            for mk in (lambda: cls(*range(len(cls._fields))), lambda: cls((1, 2)), lambda: cls(), lambda: cls(range(cls.n_sequence_fields))):
+                try:
+                    inst0 = mk()
+                    break
+                except Exception:  # noqa: BLE001
+                    continue
+            if inst0 is not None and type(inst0) is cls:
+                for name, cls_ans in (('is_namedtuple_instance', e_nt), ('is_structseq_instance', e_ss),
+                                      ('is_namedtuple', e_nt), ('is_structseq', e_ss)):
+                    f = getattr(otyping, name)
+                    a, b = f(inst0), f.__python_implementation__(inst0)
+                    if a != b or a != cls_ans:
+                        res.fail(f'{name} of an instance differs from its twin / from the classification of its class', case,
+                                 f'engine={a} python={b} class={cls_ans}')
             # what flatten does with an instance agrees with the classification
             if e_nt and not e_ss:
                 try:
